@@ -37,6 +37,11 @@ def shTail : Option (List Atom) → Option (List Atom)
   | none => none
   | some L => some L.tail
 
+/-- The key discipline of the attributes of an object of class `c`: the declared fields in their
+order, or — for a class with a variable-key schema — that of a dict. -/
+def objSh (env : Env) (c : Nat) : Option (List Atom) :=
+  if env.dyn c then none else some (env.fields c)
+
 def tupleElemOk (num : Bool) : Val → Bool
   | .atom (.num _) => num
   | .atom (.str _) => !num
@@ -52,7 +57,7 @@ mutual
     | .list _ xs => comparableList env num xs
     | .tuple xs => xs.all (tupleElemOk num)
     | .dict _ kvs => keysOk env none kvs && comparableItems env num kvs
-    | .obj c kvs => keysOk env (some (env.fields c)) kvs && comparableItems env num kvs
+    | .obj c kvs => keysOk env (objSh env c) kvs && comparableItems env num kvs
   def comparableList (env : Env) (num : Bool) : List Val → Bool
     | [] => true
     | x :: xs => comparable env num x && comparableList env num xs
